@@ -12,7 +12,7 @@ use vl_model::wire::*;
 
 use crate::c01::{self, closes, style_of};
 
-pub const RULE: &str = "server: every sequence over the 54-symbol alphabet that contains a oneway request, \
+pub const RULE: &str = "server: every sequence over the 72-symbol alphabet (18 kinds x {none,more,oneway,more+oneway}) that contains a oneway request, \
 up to the tier's length bound at every pipelining depth (handle()), random longer ones (handle() and a unix \
 socket served by listen()); oracles: reference model (a oneway request gets no reply, later replies stay aligned \
 by token) and a metamorphic twin (the reply bytes equal those of the same stream with the oneway requests \
@@ -24,14 +24,14 @@ built-in interface, unknown interface/method, no dot, bad parameters; or by the 
 non-oneway request; distinct by (symbol sequence, depth, transport) resp. op history.";
 
 fn has_oneway(syms: &[Sym]) -> bool {
-    syms.iter().any(|s| s.flag == Flag::Oneway)
+    syms.iter().any(|s| s.flag.oneway())
 }
 
 fn nontrivial(syms: &[Sym]) -> bool {
     // a oneway request followed (not necessarily directly) by a request that expects a reply
     let mut seen = false;
     for s in syms {
-        if s.flag == Flag::Oneway {
+        if s.flag.oneway() {
             seen = true;
         } else if seen {
             return true;
@@ -46,7 +46,7 @@ fn twin_check(svc: &varlink::VarlinkService, syms: &[Sym], style: u8) -> Result<
     let mut twin = vec![];
     for (i, s) in syms.iter().enumerate() {
         let b = encode(&request(*s, i), style_of(style, i));
-        if s.flag != Flag::Oneway {
+        if !s.flag.oneway() {
             twin.extend_from_slice(&b);
         }
         full.extend_from_slice(&b);
